@@ -121,13 +121,13 @@ theorem ChanOk.upd {n n' : NetSt} {name : String} {t t' u : TcpSock} (h : ChanOk
 /-! ### the mechanism functions on an attached socket -/
 
 /-- `send_packet` on the socket alone -/
-def sendPkt (t : TcpSock) (p : Pkt) : TcpSock :=
+def qSendPkt (t : TcpSock) (p : Pkt) : TcpSock :=
   { t with inFlight := t.inFlight + p.payload.length,
            outstanding := t.outstanding.filter (fun e => e.1 != p.id) ++ [(p.id, p.payload.length)] }
 
 theorem q_sendPacket {n : NetSt} {name : String} {t : TcpSock} (hs : n.tcp? name = some t) (hc : ChanOk n t)
     (now : Int) (p : Pkt) :
-    ∃ b, NUpd n (n.tcpSendPacket now name p).1 name (sendPkt t p)
+    ∃ b, NUpd n (n.tcpSendPacket now name p).1 name (qSendPkt t p)
       ∧ s5_fwdsOf (n.tcpSendPacket now name p).2 = [{ p with bc := b }] := by
   obtain ⟨cid, hcid, hch⟩ := hc
   cases hch' : n.chan? cid with
@@ -140,19 +140,19 @@ theorem q_sendPacket {n : NetSt} {name : String} {t : TcpSock} (hs : n.tcp? name
     rw [s5_fwdsOf_append, fwdsOf_if_pcapTcp]
     rfl
 
-def segPkt (t : TcpSock) (hops : List String) (seg : List UInt8) : Pkt :=
+def qSegPkt (t : TcpSock) (hops : List String) (seg : List UInt8) : Pkt :=
   { id := t.nextOut, ty := .payload, len := seg.length, ovh := 40, hops := hops, src := t.bound.toString,
     payload := seg, hasDrop := true, dropFwd := t.fwd }
 
 theorem q_sendSeg {n : NetSt} {name : String} {t : TcpSock} (hs : n.tcp? name = some t) (hc : ChanOk n t)
     (now : Int) (hops : List String) (seg : List UInt8) :
-    ∃ b, NUpd n (n.tcpSendSeg now name hops seg).1 name (sendPkt { t with nextOut := t.nextOut + 1 } (segPkt t hops seg))
-      ∧ s5_fwdsOf (n.tcpSendSeg now name hops seg).2 = [{ segPkt t hops seg with bc := b }] := by
+    ∃ b, NUpd n (n.tcpSendSeg now name hops seg).1 name (qSendPkt { t with nextOut := t.nextOut + 1 } (qSegPkt t hops seg))
+      ∧ s5_fwdsOf (n.tcpSendSeg now name hops seg).2 = [{ qSegPkt t hops seg with bc := b }] := by
   unfold NetSt.tcpSendSeg
   simp only [hs]
   have hu := NUpd.setTcp n name { t with nextOut := t.nextOut + 1 }
   obtain ⟨b, h1, h2⟩ := q_sendPacket (t := { t with nextOut := t.nextOut + 1 }) hu.same (hc.upd hu rfl) now
-    (segPkt t hops seg)
+    (qSegPkt t hops seg)
   exact ⟨b, hu.trans h1, h2⟩
 
 theorem q_windowFull {n : NetSt} {name : String} {t : TcpSock} (hs : n.tcp? name = some t) :
@@ -200,14 +200,14 @@ theorem q_asyncWrite {n : NetSt} {name : String} {t : TcpSock} (hs : n.tcp? name
   cases t.sendH <;> rfl
 
 /-- an ACK on the socket alone -/
-def ackSock (t : TcpSock) (k : Nat) : TcpSock :=
+def qAckSock (t : TcpSock) (k : Nat) : TcpSock :=
   { t with outstanding := t.outstanding.filter (fun e => e.1 != k),
            inFlight := t.inFlight - ((t.outstanding.lookup k).getD 0 : Nat) }
 
 theorem q_incomingAck (tp : TParams) {n : NetSt} {name : String} {t : TcpSock} (hs : n.tcp? name = some t)
     (now : Int) (p : Pkt) (hty : p.ty = .ack) :
     ∃ wb acked, n.tcpIncoming tp now name p
-      = (n.setTcp name (ackSock t p.id), [.tcpResend name, .tcpAckPost name wb acked]) := by
+      = (n.setTcp name (qAckSock t p.id), [.tcpResend name, .tcpAckPost name wb acked]) := by
   unfold NetSt.tcpIncoming
   simp only [hs, hty]
   exact ⟨_, _, rfl⟩
@@ -234,7 +234,7 @@ theorem q_ackPost (tp : TParams) {n : NetSt} {name : String} {t : TcpSock} (hs :
   unfold NetSt.tcpAckPost; simp only [hs]
 
 /-- `packet_dropped` on the socket alone (in-flight release in place; `rearmDrop` arbitrary) -/
-def dropBase (t : TcpSock) (p' : Pkt) : TcpSock :=
+def qDropBase (t : TcpSock) (p' : Pkt) : TcpSock :=
   { t with inFlight := t.inFlight - ((t.outstanding.lookup p'.id).getD 0 : Nat),
            outstanding := t.outstanding.filter (fun e => e.1 != p'.id),
            resend := t.resend ++ [p'] }
@@ -243,7 +243,7 @@ theorem q_packetDropped (tp : TParams) (h1 : tp.releaseOnDrop = true) {n : NetSt
     (hs : n.tcp? name = some t) (hc : ChanOk n t) (p : Pkt) :
     ∃ p' t', n.tcpPacketDropped tp name p = n.setTcp name t'
       ∧ p'.id = p.id ∧ p'.ty = p.ty ∧ p'.payload = p.payload
-      ∧ (t' = dropBase t p' ∨ ∃ cw ld, t.mss ≤ cw ∧ t' = { dropBase t p' with cwnd := cw, lastDrop := ld }) := by
+      ∧ (t' = qDropBase t p' ∨ ∃ cw ld, t.mss ≤ cw ∧ t' = { qDropBase t p' with cwnd := cw, lastDrop := ld }) := by
   obtain ⟨cid, hcid, hch⟩ := hc
   cases hch' : n.chan? cid with
   | none => rw [hch'] at hch; cases hch
@@ -544,7 +544,7 @@ theorem q_waitRead {n : NetSt} {name : String} {t : TcpSock} (hs : n.tcp? name =
 
 /-- `sa` the writer's socket, `sb` the reader's, `bag` the packets in the network (both sockets
     open: the bag holds the writer's payload segments and the reader's ACKs only) -/
-structure QPure (sa sb : TcpSock) (bag : List Pkt) : Prop where
+structure QPure (R : Prop) (sa sb : TcpSock) (bag : List Pkt) : Prop where
   mssPos : 0 < sa.mss
   floor : sa.mss ≤ sa.cwnd
   connA : sa.connectH = none
@@ -561,12 +561,13 @@ structure QPure (sa sb : TcpSock) (bag : List Pkt) : Prop where
   whereK : ∀ k, k < sa.nextOut → k ∈ ids bag ∨ k ∈ ids sa.resend ∨ Arrived sb k
   acked : ∀ p ∈ bag, p.ty = .ack → Arrived sb p.id
   drained : sb.reorder.lookup sb.nextIn = none
-  rd : Prog.RCore sb
+  /-- (`R`: the reader wake-up repair is in place) no read is pending while anything is queued -/
+  rd : R → Prog.RCore sb
 
-theorem QPure.congrA {sa sa' sb : TcpSock} {bag : List Pkt} (h : QPure sa sb bag)
+theorem QPure.congrA {R : Prop} {sa sa' sb : TcpSock} {bag : List Pkt} (h : QPure R sa sb bag)
     (h1 : sa'.mss = sa.mss) (h2 : sa'.mss ≤ sa'.cwnd) (h3 : sa'.inFlight = sa.inFlight)
     (h4 : sa'.outstanding = sa.outstanding) (h5 : sa'.resend = sa.resend) (h6 : sa'.nextOut = sa.nextOut)
-    (h7 : sa'.connectH = sa.connectH) : QPure sa' sb bag := by
+    (h7 : sa'.connectH = sa.connectH) : QPure R sa' sb bag := by
   constructor
   · rw [h1]; exact h.mssPos
   · exact h2
@@ -583,8 +584,8 @@ theorem QPure.congrA {sa sa' sb : TcpSock} {bag : List Pkt} (h : QPure sa sb bag
   · exact h.drained
   · exact h.rd
 
-theorem QPure.rdB {sa sb sb' : TcpSock} {bag : List Pkt} (h : QPure sa sb bag)
-    (h1 : sb'.nextIn = sb.nextIn) (h2 : sb'.reorder = sb.reorder) (h3 : Prog.RCore sb') : QPure sa sb' bag := by
+theorem QPure.rdB {R : Prop} {sa sb sb' : TcpSock} {bag : List Pkt} (h : QPure R sa sb bag)
+    (h1 : sb'.nextIn = sb.nextIn) (h2 : sb'.reorder = sb.reorder) (h3 : R → Prog.RCore sb') : QPure R sa sb' bag := by
   have harr : ∀ k, Arrived sb k → Arrived sb' k := by
     intro k hk; unfold Arrived at hk ⊢; rw [h1, h2]; exact hk
   refine { h with whereK := ?_, acked := ?_, drained := ?_, rd := h3 }
@@ -598,7 +599,7 @@ theorem QPure.rdB {sa sb sb' : TcpSock} {bag : List Pkt} (h : QPure sa sb bag)
 
 /-- a packet with a number that is nowhere in the network goes out (new segment or head of the
     retransmission list) -/
-theorem QPure.send {sa sb : TcpSock} {bag : List Pkt} (h : QPure sa sb bag) (t1 : TcpSock) (p p' : Pkt)
+theorem QPure.send {R : Prop} {sa sb : TcpSock} {bag : List Pkt} (h : QPure R sa sb bag) (t1 : TcpSock) (p p' : Pkt)
     (e1 : t1.mss = sa.mss) (e2 : t1.cwnd = sa.cwnd) (e3 : t1.inFlight = sa.inFlight)
     (e4 : t1.outstanding = sa.outstanding) (e5 : t1.connectH = sa.connectH)
     (hres : ∀ k, k ∈ ids t1.resend → k ∈ ids sa.resend) (hresND : (ids t1.resend).Nodup)
@@ -606,7 +607,7 @@ theorem QPure.send {sa sb : TcpSock} {bag : List Pkt} (h : QPure sa sb bag) (t1 
     (hnext : sa.nextOut ≤ t1.nextOut)
     (hw : ∀ k, k < t1.nextOut → k = p.id ∨ k ∈ ids bag ∨ k ∈ ids t1.resend ∨ Arrived sb k)
     (hp' : p'.id = p.id) (hty : p'.ty = .payload) :
-    QPure (sendPkt t1 p) sb (bag ++ [p']) := by
+    QPure R (qSendPkt t1 p) sb (bag ++ [p']) := by
   have hk : p.id ∉ keys sa.outstanding := by rw [h.live]; exact hid1
   have hf : sa.outstanding.filter (fun e => e.1 != p.id) = sa.outstanding := Prog.filter_of_not_mem _ _ hk
   have hids : ids (bag ++ [p']) = ids bag ++ [p.id] := by simp [ids, hp']
@@ -653,8 +654,8 @@ theorem QPure.send {sa sb : TcpSock} {bag : List Pkt} (h : QPure sa sb bag) (t1 
   · exact h.rd
 
 /-- an ACK reaches the writer -/
-theorem QPure.ack {sa sb : TcpSock} {bag : List Pkt} (h : QPure sa sb bag) {i : Nat} {p : Pkt}
-    (hp : bag[i]? = some p) (hty : p.ty = .ack) : QPure (ackSock sa p.id) sb (bag.eraseIdx i) := by
+theorem QPure.ack {R : Prop} {sa sb : TcpSock} {bag : List Pkt} (h : QPure R sa sb bag) {i : Nat} {p : Pkt}
+    (hp : bag[i]? = some p) (hty : p.ty = .ack) : QPure R (qAckSock sa p.id) sb (bag.eraseIdx i) := by
   have hmem := q_mem_ids_eraseIdx h.bagND hp
   have hpm : p ∈ bag := List.mem_of_getElem? hp
   constructor
@@ -684,11 +685,11 @@ theorem QPure.ack {sa sb : TcpSock} {bag : List Pkt} (h : QPure sa sb bag) {i : 
   · exact h.rd
 
 /-- a segment reaches the reader, which acknowledges it -/
-theorem QPure.data {sa sb sb' : TcpSock} {bag : List Pkt} (h : QPure sa sb bag) {i : Nat} {p : Pkt}
+theorem QPure.data {R : Prop} {sa sb sb' : TcpSock} {bag : List Pkt} (h : QPure R sa sb bag) {i : Nat} {p : Pkt}
     (hp : bag[i]? = some p) (ack : Pkt) (hid : ack.id = p.id) (hty : ack.ty = .ack)
     (harr : Arrived sb' p.id) (hmono : ∀ k, Arrived sb k → Arrived sb' k)
-    (hdr : sb'.reorder.lookup sb'.nextIn = none) (hrd : Prog.RCore sb') :
-    QPure sa sb' (bag.eraseIdx i ++ [ack]) := by
+    (hdr : sb'.reorder.lookup sb'.nextIn = none) (hrd : R → Prog.RCore sb') :
+    QPure R sa sb' (bag.eraseIdx i ++ [ack]) := by
   have hmem := q_mem_ids_eraseIdx h.bagND hp
   have hpm : p.id ∈ ids bag := Prog.mem_ids.mpr ⟨p, List.mem_of_getElem? hp, rfl⟩
   have hids : ids (bag.eraseIdx i ++ [ack]) = ids (bag.eraseIdx i) ++ [p.id] := by simp [ids, hid]
@@ -719,9 +720,9 @@ theorem QPure.data {sa sb sb' : TcpSock} {bag : List Pkt} (h : QPure sa sb bag) 
     · simp at hq; subst hq; rw [hid]; exact harr
 
 /-- a hop hands a segment back -/
-theorem QPure.drop {sa sb : TcpSock} {bag : List Pkt} (h : QPure sa sb bag) {i : Nat} {p : Pkt}
+theorem QPure.drop {R : Prop} {sa sb : TcpSock} {bag : List Pkt} (h : QPure R sa sb bag) {i : Nat} {p : Pkt}
     (hp : bag[i]? = some p) (p' : Pkt) (hid : p'.id = p.id) (cw ld : Nat) (hcw : sa.mss ≤ cw) :
-    QPure { dropBase sa p' with cwnd := cw, lastDrop := ld } sb (bag.eraseIdx i) := by
+    QPure R { qDropBase sa p' with cwnd := cw, lastDrop := ld } sb (bag.eraseIdx i) := by
   have hmem := q_mem_ids_eraseIdx h.bagND hp
   have hpm : p.id ∈ ids bag := Prog.mem_ids.mpr ⟨p, List.mem_of_getElem? hp, rfl⟩
   have hkr : p.id ∉ ids sa.resend := fun hh => h.disj _ hh hpm
@@ -774,7 +775,7 @@ structure QAt (c : TcpCfg) (net : NetSt) (bag : List Pkt) (sa sb : TcpSock) : Pr
   hsb : net.tcp? c.b = some sb
   ca : ChanOk net sa
   cb : ChanOk net sb
-  pure : QPure sa sb bag
+  pure : QPure (c.tp.wakeReaderFixed = true) sa sb bag
 
 /-- the window is full: `write_some_impl` refuses -/
 def Full (sa : TcpSock) : Prop := sa.inFlight + sa.mss > sa.cwnd
@@ -789,22 +790,24 @@ def WOk (sa : TcpSock) (ctl : TCtl) : Prop :=
   ctl.inAck = false → sa.sendH.isSome = true → Full sa ∨ sa.resend ≠ []
 
 def QL (c : TcpCfg) (net : NetSt) (bag : List Pkt) (ctl : TCtl) : Prop :=
-  ∃ sa sb, QAt c net bag sa sb ∧ JOk sa bag ctl ∧ WOk sa ctl
+  ∃ sa sb, QAt c net bag sa sb ∧ JOk sa bag ctl ∧ (c.tp.wakeWriterFixed = true → WOk sa ctl)
 
 /-- the quiescence invariant while both sockets are open -/
 def QLive (c : TcpCfg) (s : TS) : Prop := QL c s.net s.bag s.ctl
 
 theorem QAt.updA {c : TcpCfg} {n n' : NetSt} {bag bag' : List Pkt} {sa sa' sb : TcpSock}
-    (h : QAt c n bag sa sb) (hu : NUpd n n' c.a sa') (hc : sa'.chan = sa.chan) (hp : QPure sa' sb bag') :
+    (h : QAt c n bag sa sb) (hu : NUpd n n' c.a sa') (hc : sa'.chan = sa.chan)
+    (hp : QPure (c.tp.wakeReaderFixed = true) sa' sb bag') :
     QAt c n' bag' sa' sb :=
   ⟨h.ne, hu.same, (hu.other c.b (Ne.symm h.ne)).trans h.hsb, h.ca.upd hu hc, h.cb.upd hu rfl, hp⟩
 
 theorem QAt.updB {c : TcpCfg} {n n' : NetSt} {bag bag' : List Pkt} {sa sb sb' : TcpSock}
-    (h : QAt c n bag sa sb) (hu : NUpd n n' c.b sb') (hc : sb'.chan = sb.chan) (hp : QPure sa sb' bag') :
+    (h : QAt c n bag sa sb) (hu : NUpd n n' c.b sb') (hc : sb'.chan = sb.chan)
+    (hp : QPure (c.tp.wakeReaderFixed = true) sa sb' bag') :
     QAt c n' bag' sa sb' :=
   ⟨h.ne, (hu.other c.a h.ne).trans h.hsa, hu.same, h.ca.upd hu rfl, h.cb.upd hu hc, hp⟩
 
-theorem QPure.empty_zero {sa sb : TcpSock} {bag : List Pkt} (h : QPure sa sb bag) (hb : bag = []) :
+theorem QPure.empty_zero {R : Prop} {sa sb : TcpSock} {bag : List Pkt} (h : QPure R sa sb bag) (hb : bag = []) :
     sa.inFlight = 0 := by
   have ho : sa.outstanding = [] := by
     cases hx : sa.outstanding with
@@ -814,7 +817,7 @@ theorem QPure.empty_zero {sa sb : TcpSock} {bag : List Pkt} (h : QPure sa sb bag
       rw [hb] at this; simp [ids] at this
   rw [h.acct, ho]; rfl
 
-theorem QPure.empty_notFull {sa sb : TcpSock} {bag : List Pkt} (h : QPure sa sb bag) (hb : bag = []) :
+theorem QPure.empty_notFull {R : Prop} {sa sb : TcpSock} {bag : List Pkt} (h : QPure R sa sb bag) (hb : bag = []) :
     ¬ Full sa := by
   have h0 := h.empty_zero hb
   have hf := h.floor
@@ -830,7 +833,7 @@ theorem QLive.finish {c : TcpCfg} {s : TS} {sa sb : TcpSock} (h : QAt c s.net s.
   rw [hfw, List.append_nil]
   refine ⟨{ sa with sendH := sh }, sb, h.updA hu rfl (h.pure.congrA rfl h.pure.floor rfl rfl rfl rfl rfl), ?_, ?_⟩
   · intro hne; exact Or.inl (hJ hne)
-  · intro _ hs; exact hr (hsh hs)
+  · intro _ _ hs; exact hr (hsh hs)
 
 theorem QAt.sendSeg {c : TcpCfg} {net : NetSt} {bag : List Pkt} {sa sb : TcpSock} (h : QAt c net bag sa sb)
     (t : Int) (hops : List String) (seg : List UInt8) :
@@ -840,10 +843,10 @@ theorem QAt.sendSeg {c : TcpCfg} {net : NetSt} {bag : List Pkt} {sa sb : TcpSock
   obtain ⟨b, hu, hfw⟩ := q_sendSeg h.hsa h.ca t hops seg
   rw [hfw]
   refine ⟨_, h.updA hu rfl ?_, rfl, rfl, ?_, rfl, rfl, by simp⟩
-  · apply h.pure.send { sa with nextOut := sa.nextOut + 1 } (segPkt sa hops seg) _ rfl rfl rfl rfl rfl
+  · apply h.pure.send { sa with nextOut := sa.nextOut + 1 } (qSegPkt sa hops seg) _ rfl rfl rfl rfl rfl
       (fun k hk => hk) h.pure.resND
-    · intro hh; have := h.pure.fresh _ (Or.inl hh); simp [segPkt] at this
-    · intro hh; have := h.pure.fresh _ (Or.inr hh); simp [segPkt] at this
+    · intro hh; have := h.pure.fresh _ (Or.inl hh); simp [qSegPkt] at this
+    · intro hh; have := h.pure.fresh _ (Or.inr hh); simp [qSegPkt] at this
     · show sa.nextOut < sa.nextOut + 1; omega
     · show sa.nextOut ≤ sa.nextOut + 1; omega
     · intro k hk
@@ -874,7 +877,7 @@ theorem QLive.startWrite {c : TcpCfg} {s : TS} {sa sb : TcpSock} (h : QAt c s.ne
     show QL c (s.net.tcpSendSeg t c.a hops seg).1 (s.bag ++ s5_fwdsOf (s.net.tcpSendSeg t c.a hops seg).2)
       (.segs op hops rest seg.length)
     refine ⟨sa', sb, hq, fun _ => Or.inl hne, ?_⟩
-    intro _ hs; rw [h1, hW] at hs; cases hs
+    intro _ _ hs; rw [h1, hW] at hs; cases hs
 
 theorem QLive.wake {c : TcpCfg} {s : TS} {sa sb : TcpSock} (h : QAt c s.net s.bag sa sb)
     (hJ : sa.resend ≠ [] → s.bag ≠ []) (t : Int) : QLive c (s.wake c t) := by
@@ -885,9 +888,9 @@ theorem QLive.wake {c : TcpCfg} {s : TS} {sa sb : TcpSock} (h : QAt c s.net s.ba
     exact QLive.startWrite (s := { s with net := s.net.setTcp c.a { sa with sendH := none } })
       (h.updA (NUpd.setTcp _ _ _) rfl (h.pure.congrA rfl h.pure.floor rfl rfl rfl rfl rfl)) hJ rfl t op
   · rename_i hn
-    exact ⟨sa, sb, h, fun hne => Or.inl (hJ hne), fun _ hs => by rw [hn] at hs; cases hs⟩
+    exact ⟨sa, sb, h, fun hne => Or.inl (hJ hne), fun _ _ hs => by rw [hn] at hs; cases hs⟩
 
-theorem QLive.runCtl {c : TcpCfg} {s : TS} (hF : c.tp.wakeWriterFixed = true) (h : QLive c s)
+theorem QLive.runCtl {c : TcpCfg} {s : TS} (h : QLive c s)
     (hres : ∀ sa, s.net.tcp? c.a = some sa → ∀ p ∈ sa.resend, p.ty = .payload ∧ p.payload.length ≤ sa.mss)
     (t : Int) : QLive c (s.runCtl c t) := by
   obtain ⟨sa, sb, hq, hJ, hW⟩ := h
@@ -900,7 +903,7 @@ theorem QLive.runCtl {c : TcpCfg} {s : TS} (hF : c.tp.wakeWriterFixed = true) (h
     | nil =>
       have : s.net.tcpResendOne t c.a = none := by rw [q_resendOne hq.hsa hq.ca, hrs]
       simp only [this]
-      exact ⟨sa, sb, hq, fun hne => absurd hrs hne, fun hi => by simp [TCtl.inAck] at hi⟩
+      exact ⟨sa, sb, hq, fun hne => absurd hrs hne, fun _ hi => by simp [TCtl.inAck] at hi⟩
     | cons p rest =>
       by_cases hfit : sa.inFlight + p.payload.length ≤ sa.cwnd
       · have hro : s.net.tcpResendOne t c.a
@@ -916,7 +919,7 @@ theorem QLive.runCtl {c : TcpCfg} {s : TS} (hF : c.tp.wakeWriterFixed = true) (h
         have hnd := hq.pure.resND
         rw [hrs] at hnd
         simp only [ids, List.map_cons, List.nodup_cons] at hnd
-        refine ⟨_, sb, hq.updA (hu1.trans hu2) rfl ?_, fun _ => Or.inl (by simp), fun hi => by simp [TCtl.inAck] at hi⟩
+        refine ⟨_, sb, hq.updA (hu1.trans hu2) rfl ?_, fun _ => Or.inl (by simp), fun _ hi => by simp [TCtl.inAck] at hi⟩
         apply hq.pure.send { sa with resend := rest } p _ rfl rfl rfl rfl rfl
         · intro k hk; show k ∈ ids sa.resend; rw [hrs]; simp only [ids, List.map_cons, List.mem_cons]; exact Or.inr hk
         · exact hnd.2
@@ -938,7 +941,7 @@ theorem QLive.runCtl {c : TcpCfg} {s : TS} (hF : c.tp.wakeWriterFixed = true) (h
       · have hro : s.net.tcpResendOne t c.a = none := by
           rw [q_resendOne hq.hsa hq.ca, hrs]; simp only [hfit, if_false]
         simp only [hro]
-        refine ⟨sa, sb, hq, ?_, fun hi => by simp [TCtl.inAck] at hi⟩
+        refine ⟨sa, sb, hq, ?_, fun _ hi => by simp [TCtl.inAck] at hi⟩
         intro _
         left
         intro hb
@@ -955,17 +958,23 @@ theorem QLive.runCtl {c : TcpCfg} {s : TS} (hF : c.tp.wakeWriterFixed = true) (h
       · rw [hcs] at hw; simp [TCtl.willSend] at hw
     dsimp only
     rw [q_ackPost c.tp hq.hsa wb acked]
-    simp only [hF, if_true]
     have hq' : QAt c (s.net.setTcp c.a { sa with cwnd := sa.cwnd + sa.mss * acked / sa.cwnd }) s.bag
         { sa with cwnd := sa.cwnd + sa.mss * acked / sa.cwnd } sb :=
       hq.updA (NUpd.setTcp _ _ _) rfl (hq.pure.congrA rfl (Nat.le_trans hq.pure.floor (Nat.le_add_right _ _)) rfl rfl rfl rfl rfl)
-    split
-    · exact QLive.wake (s := { s with net := s.net.setTcp c.a { sa with cwnd := sa.cwnd + sa.mss * acked / sa.cwnd }, ctl := .idle }) hq' hJs t
-    · rename_i hnw
+    generalize hwk : (if c.tp.wakeWriterFixed = true
+        then decide (sa.inFlight + (sa.mss : Int) ≤ ((sa.cwnd + sa.mss * acked / sa.cwnd : Nat) : Int))
+        else !wb && decide (sa.inFlight + (sa.mss : Int) ≤ ((sa.cwnd + sa.mss * acked / sa.cwnd : Nat) : Int))) = wk
+    cases wk with
+    | true =>
+      simp only [if_true]
+      exact QLive.wake (s := { s with net := s.net.setTcp c.a { sa with cwnd := sa.cwnd + sa.mss * acked / sa.cwnd }, ctl := .idle }) hq' hJs t
+    | false =>
+      simp only [Bool.false_eq_true, if_false]
       refine ⟨_, sb, hq', fun hne => Or.inl (hJs hne), ?_⟩
-      intro _ _
+      intro hF _ _
       left
-      simp only [decide_eq_true_eq] at hnw
+      rw [hF] at hwk
+      simp only [if_true, decide_eq_false_iff_not] at hwk
       show sa.inFlight + (sa.mss : Int) > ((sa.cwnd + sa.mss * acked / sa.cwnd : Nat) : Int)
       omega
   · -- segmentation loop
@@ -988,9 +997,9 @@ theorem QLive.runCtl {c : TcpCfg} {s : TS} (hF : c.tp.wakeWriterFixed = true) (h
         show QL c (s.net.tcpSendSeg t c.a hops seg).1 (s.bag ++ s5_fwdsOf (s.net.tcpSendSeg t c.a hops seg).2)
           (.segs op hops rest' (acc + seg.length))
         refine ⟨sa', sb, hq', fun _ => Or.inl hne, ?_⟩
-        intro _ hs
+        intro hF _ hs
         rw [h1] at hs
-        rcases hW rfl hs with hf | hr
+        rcases hW hF rfl hs with hf | hr
         · left; unfold Full at hf ⊢; rw [h4, h5]; omega
         · right; rw [h2]; exact hr
 
@@ -1108,7 +1117,7 @@ theorem TS.step_closed (c : TcpCfg) (s : TS) (l : TLbl) (h : (s.step c l).closed
 
 /-! #### every label -/
 
-theorem QLive.step {c : TcpCfg} {s : TS} (hF : c.tp.wakeWriterFixed = true) (hR : c.tp.wakeReaderFixed = true)
+theorem QLive.step {c : TcpCfg} {s : TS}
     (hD : c.tp.releaseOnDrop = true) (hT : TInv c s) (hcl : s.closed = false) (h : QLive c s) (l : TLbl)
     (hl : s.dropOk l) (hcl' : (s.step c l).closed = false) : QLive c (s.step c l) := by
   obtain ⟨sa, sb, hq, hJ, hW⟩ := h
@@ -1140,7 +1149,7 @@ theorem QLive.step {c : TcpCfg} {s : TS} (hF : c.tp.wakeWriterFixed = true) (hR 
       show s.bag ++ _ ≠ []
       simp [this]
     · exact ⟨sa, sb, hq, hJ, hW⟩
-  | run t => exact QLive.runCtl hF ⟨sa, sb, hq, hJ, hW⟩ hres t
+  | run t => exact QLive.runCtl ⟨sa, sb, hq, hJ, hW⟩ hres t
   | deliver t i tr =>
     simp only [TS.step]
     split
@@ -1159,16 +1168,16 @@ theorem QLive.step {c : TcpCfg} {s : TS} (hF : c.tp.wakeWriterFixed = true) (hR 
           obtain ⟨wb, acked, hinc⟩ := q_incomingAck c.tp hq.hsa t p hty
           rw [hinc]
           simp only [tcp?_setTcp_same, Option.map_some, Option.getD_some, ackPostOf, TS.emit, s5_fwdsOf, List.append_nil]
-          show QL c (s.net.setTcp c.a (ackSock sa p.id)) (s.bag.eraseIdx i) (.resend sa.resend.length wb acked)
+          show QL c (s.net.setTcp c.a (qAckSock sa p.id)) (s.bag.eraseIdx i) (.resend sa.resend.length wb acked)
           rw [f1]
-          refine ⟨ackSock sa p0.id, sb, hq.updA (NUpd.setTcp _ _ _) rfl (hq.pure.ack hp (by rw [← f2]; exact hty)), ?_, ?_⟩
+          refine ⟨qAckSock sa p0.id, sb, hq.updA (NUpd.setTcp _ _ _) rfl (hq.pure.ack hp (by rw [← f2]; exact hty)), ?_, ?_⟩
           · intro hne
             right
             have hne' : sa.resend ≠ [] := hne
             cases hx : sa.resend with
             | nil => exact absurd hx hne'
             | cons y ys => rfl
-          · intro hi; simp [TCtl.inAck] at hi
+          · intro _ hi; simp [TCtl.inAck] at hi
         · exact ⟨sa, sb, hq, hJ, hW⟩
       · -- a segment reaches the reader
         rename_i hty
@@ -1184,7 +1193,7 @@ theorem QLive.step {c : TcpCfg} {s : TS} (hF : c.tp.wakeWriterFixed = true) (hR 
         rw [s5_fwdsOf_append, he2, List.append_nil]
         refine ⟨sa, t', hq.updB (NUpd.setTcp _ _ _) (hch hnoerr.1 hnoerr.2 (by rw [hty]; simp)) ?_, ?_, hW⟩
         · exact hq.pure.data hp ack (by rw [hid, f1]) haty (by rw [← f1]; exact harr) hmono hdr
-            (hrc hR hpk hq.pure.rd)
+            (fun hR => hrc hR hpk (hq.pure.rd hR))
         · intro _; left; simp [s5_fwdsOf]
       · rename_i hty
         exfalso
@@ -1212,11 +1221,11 @@ theorem QLive.step {c : TcpCfg} {s : TS} (hF : c.tp.wakeWriterFixed = true) (hR 
         rcases hcase with rfl | ⟨cw, ld, hcw, rfl⟩
         · refine ⟨_, sb, hq.updA (NUpd.setTcp _ _ _) rfl
             (hq.pure.drop hp p' (hid.trans f1) sa.cwnd sa.lastDrop hq.pure.floor), fun _ => hJ', ?_⟩
-          intro _ _; right
+          intro _ _ _; right
           show sa.resend ++ [p'] ≠ []; simp
         · refine ⟨_, sb, hq.updA (NUpd.setTcp _ _ _) rfl
             (hq.pure.drop hp p' (hid.trans f1) cw ld hcw), fun _ => hJ', ?_⟩
-          intro _ _; right
+          intro _ _ _; right
           show sa.resend ++ [p'] ≠ []; simp
       · exact ⟨sa, sb, hq, hJ, hW⟩
   | read op =>
@@ -1226,7 +1235,7 @@ theorem QLive.step {c : TcpCfg} {s : TS} (hF : c.tp.wakeWriterFixed = true) (hR 
     show QL c (s.net.tcpAsyncRead c.b op).1 (s.bag ++ s5_fwdsOf (s.net.tcpAsyncRead c.b op).2) s.ctl
     rw [heq, hfw, List.append_nil]
     exact ⟨sa, t', hq.updB (NUpd.setTcp _ _ _) (hrd.chan hnoerr.1)
-      (hq.pure.rdB hrd.nextIn hrd.reorder (hrd.rcore hq.pure.rd)), hJ, hW⟩
+      (hq.pure.rdB hrd.nextIn hrd.reorder (fun hR => hrd.rcore (hq.pure.rd hR))), hJ, hW⟩
   | readNb caps =>
     simp only [TS.step]
     obtain ⟨t', heq, hrd⟩ := q_readNb hq.hsb caps
@@ -1234,7 +1243,7 @@ theorem QLive.step {c : TcpCfg} {s : TS} (hF : c.tp.wakeWriterFixed = true) (hR 
     show QL c (s.net.tcpReadNb c.b caps).1 s.bag s.ctl
     rw [heq]
     exact ⟨sa, t', hq.updB (NUpd.setTcp _ _ _) (hrd.chan hnoerr.1)
-      (hq.pure.rdB hrd.nextIn hrd.reorder (hrd.rcore hq.pure.rd)), hJ, hW⟩
+      (hq.pure.rdB hrd.nextIn hrd.reorder (fun hR => hrd.rcore (hq.pure.rd hR))), hJ, hW⟩
   | waitRead hh =>
     simp only [TS.step]
     obtain ⟨t', heq, hrd, hfw⟩ := q_waitRead hq.hsb hh
@@ -1242,7 +1251,7 @@ theorem QLive.step {c : TcpCfg} {s : TS} (hF : c.tp.wakeWriterFixed = true) (hR 
     show QL c (s.net.tcpWaitRead c.b hh).1 (s.bag ++ s5_fwdsOf (s.net.tcpWaitRead c.b hh).2) s.ctl
     rw [heq, hfw, List.append_nil]
     exact ⟨sa, t', hq.updB (NUpd.setTcp _ _ _) (hrd.chan hnoerr.1)
-      (hq.pure.rdB hrd.nextIn hrd.reorder (hrd.rcore hq.pure.rd)), hJ, hW⟩
+      (hq.pure.rdB hrd.nextIn hrd.reorder (fun hR => hrd.rcore (hq.pure.rd hR))), hJ, hW⟩
   | closeA t =>
     cases hctl : s.ctl with
     | idle =>
@@ -1256,7 +1265,7 @@ theorem QLive.step {c : TcpCfg} {s : TS} (hF : c.tp.wakeWriterFixed = true) (hR 
       rw [this]; exact ⟨sa, sb, hq, hJ, hW⟩
 
 /-- the invariant along a history that satisfies the drop side condition -/
-theorem QLive.run {c : TcpCfg} (hF : c.tp.wakeWriterFixed = true) (hR : c.tp.wakeReaderFixed = true)
+theorem QLive.run {c : TcpCfg}
     (hD : c.tp.releaseOnDrop = true) (ls : List TLbl) : ∀ {s : TS}, TInv c s → (s.closed = false → QLive c s) →
       TS.okRun c s ls → (TS.run c s ls).closed = false → QLive c (TS.run c s ls) := by
   induction ls with
@@ -1266,7 +1275,7 @@ theorem QLive.run {c : TcpCfg} (hF : c.tp.wakeWriterFixed = true) (hR : c.tp.wak
     apply ih (hT.step l) _ hok.2 hc
     intro hc1
     have hc0 := TS.step_closed c s l hc1
-    exact QLive.step hF hR hD hT hc0 (h hc0) l hok.1 hc1
+    exact QLive.step hD hT hc0 (h hc0) l hok.1 hc1
 
 theorem QLive.init {c : TcpCfg} {n : NetSt} (h : TcpStartQ c n) : QLive c (TS.init c n) := by
   obtain ⟨sa, hsa, a1, a2, a3, a4, a5, a6, a7⟩ := h.qa
@@ -1275,7 +1284,7 @@ theorem QLive.init {c : TcpCfg} {n : NetSt} (h : TcpStartQ c n) : QLive c (TS.in
   obtain ⟨sb', hsb', d1, d2, d3⟩ := h.sb
   rw [hsa] at hsa'; cases hsa'
   rw [hsb] at hsb'; cases hsb'
-  refine ⟨sa, sb, ⟨h.ne, hsa, hsb, a7, b4, ?_⟩, fun hne => absurd c2 hne, fun _ hs => by rw [a2] at hs; cases hs⟩
+  refine ⟨sa, sb, ⟨h.ne, hsa, hsb, a7, b4, ?_⟩, fun hne => absurd c2 hne, fun _ _ hs => by rw [a2] at hs; cases hs⟩
   constructor
   · exact a5
   · exact a6
@@ -1290,13 +1299,69 @@ theorem QLive.init {c : TcpCfg} {n : NetSt} (h : TcpStartQ c n) : QLive c (TS.in
   · intro k hk; rw [c1] at hk; omega
   · intro p hp; simp [TS.init] at hp
   · rw [d2]; rfl
-  · exact ⟨⟨b1, (by intro hh; rw [b2] at hh; cases hh), (by intro hh; rw [b3] at hh; cases hh),
+  · intro _
+    exact ⟨⟨b1, (by intro hh; rw [b2] at hh; cases hh), (by intro hh; rw [b3] at hh; cases hh),
       (by intro p hp; rw [d3] at hp; cases hp), (by intro e he; rw [d2] at he; cases he)⟩, fun _ => d3⟩
 
 /-- every reachable state of a history satisfying the side condition, both sockets open -/
-theorem QLive.reach {c : TcpCfg} {n : NetSt} (hF : c.tp.wakeWriterFixed = true) (hR : c.tp.wakeReaderFixed = true)
+theorem QLive.reach {c : TcpCfg} {n : NetSt}
     (hD : c.tp.releaseOnDrop = true) (h : TcpStartQ c n) (ls : List TLbl) (hok : TS.okRun c (TS.init c n) ls)
     (hc : (TS.run c (TS.init c n) ls).closed = false) : QLive c (TS.run c (TS.init c n) ls) :=
-  QLive.run hF hR hD ls (TInv.init h.toTcpStart) (fun _ => QLive.init h) hok hc
+  QLive.run hD ls (TInv.init h.toTcpStart) (fun _ => QLive.init h) hok hc
+
+/-! ### start states -/
+
+/-- `TcpStartQ` from decidable projections (for concrete states) -/
+theorem tcpStartQ_of_check (c : TcpCfg) (n : NetSt) (h : TcpStart c n)
+    (ha : (n.tcp? c.a).map (fun s => (s.connectH, s.sendH.isSome, s.inFlight, s.outstanding.length,
+            decide (0 < s.mss ∧ s.mss ≤ s.cwnd), (s.chan.bind n.chan?).isSome))
+          = some (none, false, 0, 0, true, true))
+    (hb : (n.tcp? c.b).map (fun s => (s.connectH, s.recvH.isSome, s.waitRecvH.isSome, (s.chan.bind n.chan?).isSome))
+          = some (none, false, false, true)) : TcpStartQ c n := by
+  have hch : ∀ (s : TcpSock), (s.chan.bind n.chan?).isSome = true → ∃ cid, s.chan = some cid ∧ (n.chan? cid).isSome = true := by
+    intro s hs
+    cases hc : s.chan with
+    | none => rw [hc] at hs; cases hs
+    | some cid => rw [hc] at hs; exact ⟨cid, rfl, hs⟩
+  refine { h with qa := ?_, qb := ?_ }
+  · cases hs : n.tcp? c.a with
+    | none => rw [hs] at ha; cases ha
+    | some s =>
+      rw [hs] at ha
+      simp only [Option.map_some, Option.some.injEq, Prod.mk.injEq, decide_eq_true_eq] at ha
+      obtain ⟨a1, a2, a3, a4, a5, a6⟩ := ha
+      refine ⟨s, rfl, a1, ?_, a3, List.eq_nil_of_length_eq_zero a4, a5.1, a5.2, hch s a6⟩
+      cases hh : s.sendH with
+      | none => rfl
+      | some x => rw [hh] at a2; cases a2
+  · cases hs : n.tcp? c.b with
+    | none => rw [hs] at hb; cases hb
+    | some s =>
+      rw [hs] at hb
+      simp only [Option.map_some, Option.some.injEq, Prod.mk.injEq] at hb
+      obtain ⟨b1, b2, b3, b4⟩ := hb
+      refine ⟨s, rfl, b1, ?_, ?_, hch s b4⟩
+      · cases hh : s.recvH with
+        | none => rfl
+        | some x => rw [hh] at b2; cases b2
+      · cases hh : s.waitRecvH with
+        | none => rfl
+        | some x => rw [hh] at b3; cases b3
+
+/-- the explicitly built established state is a quiescence start state in both directions,
+    whatever the routes and endpoints, provided the configured path MTUs are positive -/
+theorem established_startQ (cfg : NetCfg) (c : TcpCfg) (epA epB : Ep) (hopsAB hopsBA : List String)
+    (h : c.a ≠ c.b) (hA : 0 < cfg.pathMtu epA.addr epB.addr) (hB : 0 < cfg.pathMtu epB.addr epA.addr) :
+    TcpStartQ c (established cfg c epA epB hopsAB hopsBA)
+    ∧ TcpStartQ { a := c.b, b := c.a, tp := c.tp } (established cfg c epA epB hopsAB hopsBA) := by
+  have hs := established_start cfg c epA epB hopsAB hopsBA h
+  have hba : (c.b == c.a) = false := by simpa using (Ne.symm h)
+  constructor
+  · apply tcpStartQ_of_check _ _ hs.1
+    · simp [established, NetSt.tcp?, NetSt.chan?, hA]; omega
+    · simp [established, NetSt.tcp?, NetSt.chan?, List.lookup, hba]
+  · apply tcpStartQ_of_check _ _ hs.2
+    · simp [established, NetSt.tcp?, NetSt.chan?, List.lookup, hba, hB]; omega
+    · simp [established, NetSt.tcp?, NetSt.chan?]
 
 end SimVerif
